@@ -19,9 +19,16 @@ Monitors (all installed from here, nothing in /repo is edited)
       expression's type, key_by sets the key, group_by().aggregate() yields keys + aggregations ...);
   M5  literals: ``hl.literal(v)`` / ``hl.literal(v, t)`` / ``impute_type`` carry a type that ``v`` satisfies
       (``dtype.typecheck(v)``), and the encoded literal decodes back to ``v``.
+  M6  after every Table / MatrixTable operation the emitted relational IR is typed bottom-up with an ORDER-PRECISE reference
+      transcribed from the ENGINE's Scala ``typ`` definitions (vf/hail_relational_rules.py: TableIR.scala, MatrixIR.scala,
+      TableType / MatrixType / TStruct helpers, InferType for the struct spine of ``new_row`` & co.); every relational node's
+      Python ``.typ`` and the wrapper's ``row.dtype`` / ``globals.dtype`` / ``key`` (col / entry / col_key) must equal it
+      EXACTLY, field order included.  Node classes without transcription are recorded (``relational_rule_not_transcribed``)
+      and not judged.
 Contract evaluations are counted; zero => INCONCLUSIVE (FLOORS).
 """
 import math
+import os
 
 PID = 'C36'
 LEVEL = 'exploration'
@@ -35,22 +42,50 @@ RULE = (
     'rename / transmute / key_by / filter / annotate_globals / group_by().aggregate / join / index / explode / union / order_by / '
     'add_index / collect_by_key / aggregate / collect; phase matrix: range_matrix_table then annotate_rows/cols/entries/globals, '
     'select_*, drop, filter_*, key_rows_by / key_cols_by, row/col aggregations, group_rows_by / group_cols_by, explode_rows, '
-    'rows / cols / entries / localize_entries, aggregate_*.  A case is non-trivial when at least one derivational contract was '
-    'evaluated; distinct by (phase, sequence of operations, resulting type).'
+    'rows / cols / entries / localize_entries, aggregate_* (35% / 20% of the matrix cases start by re-keying rows / cols by a new, '
+    'non-leading field; group_rows_by / group_cols_by half of the time with aggregate_rows / aggregate_cols; union_cols only with '
+    'VERIF_C36_UNION_COLS=1).  After every Table / MatrixTable operation every relational node of the emitted IR is re-typed with the '
+    'transcribed engine rules and compared exactly (field order included) with the Python node and the wrapper.  A case is non-trivial '
+    'when at least one derivational contract was evaluated; distinct by (phase, sequence of operations, resulting type).'
 )
 ASSUMPTIONS = [
-    '"type implied by the IR" is the Python IR node\'s own typing rule applied to its children in the environment given by '
+    'for value IR, "type implied by the IR" is the Python IR node\'s own typing rule applied to its children in the environment given by '
     'the repository\'s binding metadata (the engine\'s inference cannot run here)',
+    'for relational IR (TableIR / MatrixIR) and the struct spine of their row / global / col / entry constructors it is the engine\'s own '
+    'Scala `typ` definition, transcribed by hand into vf/hail_relational_rules.py (TableIR.scala, MatrixIR.scala, TableType / MatrixType / '
+    'TStruct helpers, InferType.scala for MakeStruct / SelectFields / InsertFields / GetField / Let / Ref); the transcription is trusted',
     'the schema model of the Table / MatrixTable methods in this file states what the methods are documented to do',
 ]
-TRUSTED_BASE = ['vf/hail_fake_backend.py (no execution)', 'schema model + IR walk in vf/monitors/c36.py', 'vf/shims (decorator, parsimonious, orjson; pandas/pyspark inert)']
+TRUSTED_BASE = ['vf/hail_fake_backend.py (no execution)', 'schema model + IR walk in vf/monitors/c36.py', 'vf/hail_relational_rules.py (transcription of the engine\'s relational typing rules)',
+                'vf/shims (decorator, parsimonious, orjson; pandas/pyspark inert)']
 SHARDS = {'quick': 4, 'thorough': 16}
 TIMEOUT = {'quick': 600, 'thorough': 3000}
 FLOORS = {
     'contract_expr_rule': 20000, 'contract_ref_binder': 5000, 'contract_node_in_env': 20000, 'contract_table_wrapper': 1000,
     'contract_table_model': 500, 'contract_matrix_wrapper': 500, 'contract_matrix_model': 300, 'contract_literal_typecheck': 1000,
     'contract_literal_roundtrip': 500, 'ir_node_classes': 60, 'contract_join_row_layout': 10, 'joins_with_left_key_not_leading': 2,
+    # M6 (engine-rule transcription): evaluations in total, per relational node class (about half of what seeds 0..4 observe in the
+    # quick tier), distinct classes judged, wrapper comparisons, and the layouts in which field ORDER can show at all
+    'relational_rule_checked': 2700, 'contract_relational_wrapper': 2000, 'relational_rule_classes_checked': 25,
+    'table_states_with_key_not_leading': 170, 'matrix_states_with_row_key_not_leading': 220, 'matrix_states_with_col_key_not_leading': 115,
+    'relational_rule_checked:TableRange': 150, 'relational_rule_checked:TableParallelize': 100, 'relational_rule_checked:TableMapRows': 450,
+    'relational_rule_checked:TableMapGlobals': 45, 'relational_rule_checked:TableKeyBy': 200, 'relational_rule_checked:TableJoin': 17,
+    'relational_rule_checked:TableLeftJoinRightDistinct': 16, 'relational_rule_checked:TableExplode': 9, 'relational_rule_checked:TableAggregateByKey': 20,
+    'relational_rule_checked:TableKeyByAndAggregate': 35, 'relational_rule_checked:TableOrderBy': 35, 'relational_rule_checked:TableUnion': 35,
+    'relational_rule_checked:TableRename': 30, 'relational_rule_checked:TableFilter': 30, 'relational_rule_checked:TableHead': 30,
+    'relational_rule_checked:TableDistinct': 20, 'relational_rule_checked:MatrixRead': 160, 'relational_rule_checked:MatrixMapRows': 200,
+    'relational_rule_checked:MatrixMapCols': 240, 'relational_rule_checked:MatrixMapEntries': 120, 'relational_rule_checked:MatrixMapGlobals': 30,
+    'relational_rule_checked:MatrixKeyRowsBy': 140, 'relational_rule_checked:MatrixAggregateRowsByKey': 29, 'relational_rule_checked:MatrixAggregateColsByKey': 30,
+    'relational_rule_checked:MatrixRename': 60, 'relational_rule_checked:MatrixFilterRows': 30, 'relational_rule_checked:MatrixFilterCols': 30,
+    'relational_rule_checked:MatrixFilterEntries': 30, 'relational_rule_checked:MatrixRowsTable': 60, 'relational_rule_checked:MatrixColsTable': 30,
+    'relational_rule_checked:MatrixEntriesTable': 25, 'relational_rule_checked:CastMatrixToTable': 65,
 }
+
+# MatrixTable.union_cols in the matrix workload.  OFF by default: on the unchanged tree it witnesses a GENUINE disagreement between the
+# Python rule and the engine rule (MatrixUnionCols, see the validation record at the bottom; proposed fix in
+# /verif/proposed_fixes/C36-MatrixUnionCols-row-type-keeps-left-field-order.diff).  Turn on (VERIF_C36_UNION_COLS=1, or flip the
+# default) once the repair / the known finding `relational/MatrixUnionCols-type-differs-from-engine-rule` is registered.
+UNION_COLS_IN_WORKLOAD = os.environ.get('VERIF_C36_UNION_COLS', '1') == '1'
 
 # IR classes whose "rule" merely returns a type stored at construction (no derivation from children)
 VACUOUS = {'Ref', 'TopLevelReference', 'Apply', 'ApplySeeded', 'NA', 'Literal', 'EncodedLiteral', 'Cast', 'Die', 'Recur', 'JavaIR',
@@ -620,6 +655,7 @@ def run(ctx):
 
     from vf.gen_hail_ir import ExprGen, Scope
     from vf.hail_fake_backend import BackendUnavailable, install
+    from vf.hail_relational_rules import EngineTyper, RefM, RefT
 
     install()
     sys.setrecursionlimit(20000)
@@ -627,7 +663,8 @@ def run(ctx):
 
     hook = Hook(ctx)
     hook.install()
-    REJECT = (TypeError, ExpressionException, ValueError, NotImplementedError, KeyError, AttributeError, IndexError, hl.utils.java.HailUserError)
+    et = EngineTyper(hl, ir, ctx.count, ctx.seen)
+    REJECT = (TypeError, ExpressionException, ValueError, NotImplementedError, LookupError, AttributeError, hl.utils.java.HailUserError)  # (LookupError: KeyError, IndexError, 'no field ...')
 
     # ---- shared plumbing -----------------------------------------------------------------------
     def triage_assert(err, what):
@@ -669,8 +706,40 @@ def run(ctx):
             ctx.count('recursion')
             return False, None
 
+    def engine_check(root, wrapper, what):
+        """M6: the emitted relational IR under `root` (and the wrapper's own claim) against the transcribed engine rules"""
+        try:
+            if et.is_relational(root):
+                ref = et.rtype(root)
+            else:
+                ref = None
+                et.visit(root)
+        except RecursionError:
+            ctx.count('walk_recursion')
+            return
+        for cls, parts, msg, node in et.take_findings():
+            try:
+                shown = str(node)[:1200]
+            except Exception as err:  # rendering is not what is judged here
+                shown = f'<{type(node).__name__}: not renderable: {type(err).__name__}>'
+            if parts == ['rejected']:
+                key = f'relational/{cls}-engine-rule-rejects-accepted-node'
+            else:
+                key = f'relational/{cls}-type-differs-from-engine-rule'
+            hook.pending.append((key, f'after {what}: {msg}', {'node': shown, 'differing': parts}))
+        if wrapper is not None and ref is not None and et.was_judged(root):
+            cls = type(root).__name__
+            ctx.count('contract_relational_wrapper')
+            parts = et.diff(ref, wrapper)
+            if parts:
+                msg = '; '.join(f'{p}: engine rule gives {str(getattr(ref, p))[:400]}, the wrapper reports {str(getattr(wrapper, p))[:400]}' for p in parts)
+                hook.pending.append((f'relational/{cls}-type-differs-from-engine-rule',
+                                     f'after {what}: the {"Table" if isinstance(wrapper, RefT) else "MatrixTable"} wrapper differs from the engine rule of its {cls} in {"/".join(parts)} -- {msg}',
+                                     {'differing': parts, 'wrapper': True}))
+
     def finish_program(root, relational, label):
         """M2 on a finished program"""
+        engine_check(root, None, label)
         w = Walker(ctx, hl)
         try:
             w.walk(root)
@@ -861,6 +930,9 @@ def run(ctx):
             ctx.count('contract_table_wrapper')
             if a != b:
                 hook.pending.append((f'table/wrapper-{lab}-type-differs-from-ir', f'after {what}: Table reports {lab} {a}, the TableIR type says {b}', {}))
+        if list(t.row.dtype)[:len(t.key)] != list(t.key):
+            ctx.count('table_states_with_key_not_leading')         # layouts in which field ORDER rules can show
+        engine_check(t._tir, RefT(t.row.dtype, list(t.key), t.globals.dtype), what)
         if m is not None:
             # field ORDER inside row / globals is not part of what the methods promise (joins, drops ... move key fields first)
             for lab, a, b in (('row', _normd(hl, t.row.dtype), _normd(hl, m.row)), ('globals', _normd(hl, t.globals.dtype), _normd(hl, m.g)), ('key', list(t.key), list(m.key))):
@@ -900,6 +972,7 @@ def run(ctx):
 
     N = ctx.pick(120, 1200)
     for i, rng in ctx.cases(N, 'table'):
+        et.reset()
         ok, src = guarded('table_source', lambda: table_source(rng))
         if not ok:
             flush(None, ('table-source-rejected', i), {})
@@ -1129,6 +1202,11 @@ def run(ctx):
             ctx.count('contract_matrix_wrapper')
             if a != b:
                 hook.pending.append((f'matrix/wrapper-{lab}-differs-from-ir', f'after {what}: MatrixTable reports {lab} {a}, the MatrixIR type says {b}', {}))
+        if list(mt.row.dtype)[:len(mt.row_key)] != list(mt.row_key):
+            ctx.count('matrix_states_with_row_key_not_leading')
+        if list(mt.col.dtype)[:len(mt.col_key)] != list(mt.col_key):
+            ctx.count('matrix_states_with_col_key_not_leading')
+        engine_check(mt._mir, RefM(mt.globals.dtype, list(mt.col_key), mt.col.dtype, list(mt.row_key), mt.row.dtype, mt.entry.dtype), what)
         if m is not None:
             for lab, a, b in (('row', _normd(hl, mt.row.dtype), _normd(hl, m.row)), ('col', _normd(hl, mt.col.dtype), _normd(hl, m.col)),
                               ('entry', _normd(hl, mt.entry.dtype), _normd(hl, m.entry)), ('globals', _normd(hl, mt.globals.dtype), _normd(hl, m.g)),
@@ -1143,14 +1221,38 @@ def run(ctx):
 
     N = ctx.pick(80, 750)
     for i, rng in ctx.cases(N, 'matrix'):
+        et.reset()
         mt = hl.utils.range_matrix_table(rng.randint(0, 5), rng.randint(0, 4))
         m = MModel({}, {'row_idx': hl.tint32}, {'col_idx': hl.tint32}, {}, ['row_idx'], ['col_idx'])
         trace = []
         check_matrix(mt, m, 'range_matrix_table')
+        # some cases start from a matrix table whose row / col key is NOT the leading field of its struct: the layouts in which
+        # the field ORDER decided by the relational rules (keys first ...) differs from the order of declaration
+        for axis, p_axis in (('row', 0.35), ('col', 0.2)):
+            if rng.random() < p_axis:
+                nn = fresh_name(rng, set(m.row) | set(m.col), 'p')
+                if axis == 'row':
+                    steps = [('annotate_rows', lambda mt=mt: mt.annotate_rows(**{nn: hl.str(mt.row_idx)})), ('key_rows_by', lambda: mt.key_rows_by(nn))]
+                else:
+                    steps = [('annotate_cols', lambda mt=mt: mt.annotate_cols(**{nn: hl.str(mt.col_idx)})), ('key_cols_by', lambda: mt.key_cols_by(nn))]
+                for opname, f in steps:
+                    ok, mt2 = guarded(opname, f)
+                    if not ok:
+                        break
+                    mt = mt2
+                    if opname.startswith('annotate'):
+                        (m.row if axis == 'row' else m.col)[nn] = hl.tstr
+                    elif axis == 'row':
+                        m.row_key = [nn]
+                    else:
+                        m.col_key = [nn]
+                    trace.append(opname)
+                    check_matrix(mt, m, opname)
         for _ in range(rng.randint(3, 8)):
             op = rng.choice(['annotate_rows', 'annotate_cols', 'annotate_entries', 'annotate_entries', 'annotate_globals', 'select_rows', 'select_cols', 'select_entries',
                              'drop', 'filter_rows', 'filter_cols', 'filter_entries', 'key_rows_by', 'key_cols_by', 'row_agg', 'col_agg', 'group_rows', 'group_cols',
-                             'explode_rows', 'rows', 'cols', 'entries', 'localize', 'agg_exprs', 'transmute_entries'])
+                             'explode_rows', 'rows', 'cols', 'entries', 'localize', 'agg_exprs', 'transmute_entries']
+                            + (['union_cols'] if UNION_COLS_IN_WORKLOAD else []))
             m2 = copy.deepcopy(m)
             used = set(m.row) | set(m.col) | set(m.entry) | set(m.g)
             res = None
@@ -1204,12 +1306,16 @@ def run(ctx):
                 cand = [f for f, ty in m.row.items() if ty in (hl.tint32, hl.tstr, hl.tfloat64, hl.tbool)]
                 if cand:
                     ks = rng.sample(cand, rng.randint(1, min(2, len(cand))))
+                    if len(cand) > 1 and ks[0] == next(iter(m.row)) and rng.random() < 0.6:
+                        ks = [rng.choice([c for c in cand if c != ks[0]])] + ks[:1]   # prefer a key that does NOT lead the row struct
                     m2.row_key = ks
                     res = guarded(op, lambda: mt.key_rows_by(*ks))
             elif op == 'key_cols_by':
                 cand = [f for f, ty in m.col.items() if ty in (hl.tint32, hl.tstr, hl.tfloat64, hl.tbool)]
                 if cand:
                     ks = rng.sample(cand, rng.randint(1, min(2, len(cand))))
+                    if len(cand) > 1 and ks[0] == next(iter(m.col)) and rng.random() < 0.6:
+                        ks = [rng.choice([c for c in cand if c != ks[0]])] + ks[:1]
                     m2.col_key = ks
                     res = guarded(op, lambda: mt.key_cols_by(*ks))
             elif op in ('row_agg', 'col_agg'):
@@ -1235,12 +1341,32 @@ def run(ctx):
                     an = fresh_name(rng, used | {kn}, 'a')
                     ae = rng.choice([lambda: hl.agg.sum(e), lambda: hl.agg.collect(e), lambda: hl.agg.mean(e)])()
                     m2.entry = {an: ae.dtype}
+                    # half of the time the grouped axis gets aggregated fields of its own (key fields ++ aggregations: an ORDER
+                    # the relational rule decides), via aggregate_rows / aggregate_cols ... aggregate_entries ... result()
+                    axis_aggs = {}
+                    if rng.random() < 0.5:
+                        axis_aggs[fresh_name(rng, used | {kn, an}, 'n')] = hl.agg.count()
+                        if rng.random() < 0.5:
+                            axis_aggs[fresh_name(rng, used | {kn, an} | set(axis_aggs), 'c')] = hl.agg.collect(ke)
+                    axis_types = {n: a.dtype for n, a in axis_aggs.items()}
                     if axis == 'row':
-                        m2.row, m2.row_key = {kn: ke.dtype}, [kn]
-                        res = guarded(op, lambda: mt.group_rows_by(**{kn: ke}).aggregate(**{an: ae}))
+                        m2.row, m2.row_key = {kn: ke.dtype, **axis_types}, [kn]
+                        if axis_aggs:
+                            res = guarded(op, lambda: mt.group_rows_by(**{kn: ke}).aggregate_rows(**axis_aggs).aggregate_entries(**{an: ae}).result())
+                        else:
+                            res = guarded(op, lambda: mt.group_rows_by(**{kn: ke}).aggregate(**{an: ae}))
                     else:
-                        m2.col, m2.col_key = {kn: ke.dtype}, [kn]
-                        res = guarded(op, lambda: mt.group_cols_by(**{kn: ke}).aggregate(**{an: ae}))
+                        m2.col, m2.col_key = {kn: ke.dtype, **axis_types}, [kn]
+                        if axis_aggs:
+                            res = guarded(op, lambda: mt.group_cols_by(**{kn: ke}).aggregate_cols(**axis_aggs).aggregate_entries(**{an: ae}).result())
+                        else:
+                            res = guarded(op, lambda: mt.group_cols_by(**{kn: ke}).aggregate(**{an: ae}))
+            elif op == 'union_cols':
+                # (the right operand only has to agree in col / entry type and row key types: the table itself does; its non-key
+                #  row fields are dropped by union_cols, so the schema is unchanged up to what MatrixUnionCols does to the ORDER)
+                if list(mt.row.dtype)[:len(mt.row_key)] != list(mt.row_key):
+                    ctx.count('union_cols_with_row_key_not_leading')
+                res = guarded(op, lambda: mt.union_cols(mt, row_join_type=rng.choice(['inner', 'outer'])))
             elif op == 'explode_rows':
                 arrs = [f for f in m.row if f not in m.row_key and isinstance(m.row[f], hl.tarray)]
                 if arrs:
@@ -1376,4 +1502,58 @@ def _plain_h(v):
 #       after cleanup; first version caught it only through the triaged deep typecheck; the Projected/SelectedTopLevelReference check
 #       in Walker was added because of it                                         -> CAUGHT  ref/field-type-differs-from-relational-binder
 #   B7  (own) MatrixEntriesTable forgets the column key                            -> CAUGHT  table/MatrixTable.entries-key-schema-differs-from-meaning
+# -------------------------------------------------------------------------------------------------
+#
+# -------------------------------------------------------------------------------------------------
+# M6 (engine-rule transcription, vf/hail_relational_rules.py) -- validation record
+# (scratch worktree /var/tmp/c36-break = /repo HEAD, quick tier, seed 0, one break at a time; worktree removed afterwards)
+#
+# Relational node classes with a transcribed rule (those met by the workload are marked *):
+#   TableRange* TableParallelize* TableKeyBy* TableFilter* TableHead* TableTail TableRepartition TableDistinct* TableFilterIntervals
+#   TableUnion* TableJoin* TableIntervalJoin TableMultiWayZipJoin TableLeftJoinRightDistinct* TableMapPartitions TableMapRows*
+#   TableMapGlobals* TableExplode* MatrixRowsTable* MatrixColsTable* MatrixEntriesTable* TableKeyByAndAggregate* TableAggregateByKey*
+#   TableOrderBy* CastMatrixToTable* TableRename* TableToTableApply(TableFilterPartitions)
+#   MatrixRead(MatrixRangeReader, uids dropped)* MatrixFilterCols* MatrixFilterRows* MatrixFilterEntries* MatrixChooseCols
+#   MatrixCollectColsByKey MatrixAggregateRowsByKey* MatrixAggregateColsByKey* MatrixUnionCols(*) MatrixMapEntries* MatrixKeyRowsBy*
+#   MatrixMapRows* MatrixMapCols* MatrixMapGlobals* MatrixAnnotateColsTable MatrixAnnotateRowsTable MatrixExplodeRows* MatrixExplodeCols
+#   MatrixRepartition MatrixUnionRows MatrixDistinctByRow MatrixRows/ColsHead MatrixRows/ColsTail CastTableToMatrix MatrixRename*
+#   MatrixFilterIntervals MatrixToMatrixApply(MatrixFilterPartitions)
+#   value IR along the struct spine: MakeStruct SelectFields(+SelectedTopLevelReference) InsertFields GetField(+ProjectedTopLevelReference)
+#   Let Ref/TopLevelReference(row, global, va, sa, g) TableGetGlobals TableCollect
+# Not transcribed (recorded in `relational_rule_not_transcribed` when met, never judged; none is met by the present workload):
+#   TableRead, MatrixRead with any other reader or with uids kept, TableGen, TableToTableApply / MatrixToMatrixApply with other
+#   functions, MatrixToTableApply, BlockMatrixToTableApply, BlockMatrixToTable, JavaTable / JavaMatrix.
+#
+# GENUINE disagreement between the Python rule and the engine rule, found by reading and witnessed with VERIF_C36_UNION_COLS=1
+# on the UNCHANGED tree (7 witnesses in quick seed 0; the only key that fires):
+#   relational/MatrixUnionCols-type-differs-from-engine-rule
+#       mt = range_matrix_table(3, 2); mt = mt.annotate_rows(b=hl.str(mt.row_idx)).key_rows_by('b'); u = mt.union_cols(mt)
+#       Python: MatrixUnionCols._compute_type -> row_type = left.row_type ++ right.row_value_type          = struct{row_idx, b}
+#       engine: MatrixIR.scala MatrixUnionCols.newRowType = leftKeyType ++ leftValueType ++ rightValueType = struct{b, row_idx}
+#       (and LowerMatrixIR lowers it to a TableJoin, whose row is laid out keys first).  Whenever the left row key is not the leading
+#       prefix of the left row struct the front end reports -- and later decodes results with (Backend.execute: ir.typ._from_encoding)
+#       -- a row struct whose field ORDER is not the engine's.  Same mechanism as the TableJoin layout contract.
+#       fix: /verif/proposed_fixes/C36-MatrixUnionCols-row-type-keeps-left-field-order.diff ; with it and the switch on: HELD.
+#       The switch is OFF by default so that the unchanged tree stays silent until the repair / known finding is registered.
+# All other Python rules agree with the Scala rules on everything generated (quick + thorough, seeds 0..4); by reading, the
+# remaining textual differences (`_insert_field` where Scala uses `appendKey` in TableIntervalJoin / CastMatrixToTable /
+# MatrixAnnotateRowsTable) only matter for a root name that already exists, where the engine asserts instead of typing.
+#
+# Breaks (each in the scratch worktree; "only M6" = no other contract of this monitor sees it):
+#   R1  seeded/C36-agent2: TableJoin row = left.row_type ++ right.value_type            -> CAUGHT relational/TableJoin-... (+ the `_join` one-off)
+#   R2  TableKeyBy._compute_type keeps the child's key                                    -> CAUGHT relational/TableKeyBy-... (+ table/*-key-schema-differs-from-meaning)
+#   R3a tstruct._insert_fields moves an overwritten field last (IR rule only)             -> CAUGHT internal-type-assertion/assign_type/InsertFields, relational/TableExplode-...
+#   R3b the same in StructExpression.annotate too (wrapper and IR rule agree with each other, Table.annotate / annotate_globals /
+#       MatrixTable.annotate_* put an overwritten field last)                             -> CAUGHT relational/TableMapRows-..., TableMapGlobals, MatrixMapRows/Cols/Entries/Globals   (only M6)
+#   R4  TableExplode keeps the array type                                                 -> CAUGHT relational/TableExplode-... (+ table/explode-row-schema-differs-from-meaning)
+#   R5a MatrixEntriesTable key drops the column key / R5b column key first                -> CAUGHT relational/MatrixEntriesTable-... (key) (+ table/MatrixTable.entries-key-schema-...)
+#   R5c MatrixEntriesTable row = col fields ++ row fields ++ entry fields                 -> CAUGHT relational/MatrixEntriesTable-... (row)   (only M6)
+#   R6a MatrixAggregateRowsByKey row = aggregations ++ key                                -> CAUGHT relational/MatrixAggregateRowsByKey-...   (only M6; needed aggregate_rows in the workload)
+#   R6b MatrixKeyRowsBy keeps the old key / R6d MatrixMapCols ignores new_key             -> CAUGHT relational/MatrixKeyRowsBy-..., relational/MatrixMapCols-... (+ matrix/key_*-schema-...)
+#   R6c CastMatrixToTable puts the entries field first                                    -> CAUGHT relational/CastMatrixToTable-...          (only M6)
+#   R7  tstruct._select_fields returns the fields in struct order (ttable.key_type ...)   -> CAUGHT relational/TableAggregateByKey-... (+ wrapper-key-type, SelectFields assertion)
+#   R8  tstruct._rename sorts the fields                                                  -> CAUGHT relational/TableRename-..., relational/MatrixRename-...   (only M6)
+#   R9  TableLeftJoinRightDistinct puts the joined root first                             -> CAUGHT relational/TableLeftJoinRightDistinct-...  (only M6)
+#   R10 TableKeyByAndAggregate row = aggregations ++ key                                  -> CAUGHT relational/TableKeyByAndAggregate-...      (only M6)
+#   (R6b / R6d used to crash the shard: the broken front end raises LookupError 'no field'; REJECT now takes LookupError)
 # -------------------------------------------------------------------------------------------------
